@@ -77,8 +77,8 @@ def _run(prog):
             classes.append({"cls": n, "comps": comp_list(c.components), "len": len(c), "tag": c.tag if isinstance(c.tag, int) else -99,
                             "contains": [[tn, bool(t in c) and bool(c.has_class_component(t))] for tn, t in TYPES.items()], "get": get})
         return {"classes": classes,
-                "inst": [{"cls": n, "tag": a.tag if isinstance(a.tag, int) else -99, "comps": comp_list(a.components),
-                          "len": len(a), "api": [inst_api(a, tn, t) for tn, t in TYPES.items()]} for n, a in insts]}
+                "inst": [{"cls": n, "tag": (-98 if i in unread else (a.tag if isinstance(a.tag, int) else -99)), "comps": comp_list(a.components),
+                          "len": len(a), "api": [inst_api(a, tn, t) for tn, t in TYPES.items()]} for i, (n, a) in enumerate(insts)]}
 
     def inst_api(a, tn, t):
         has = bool(t in a) and bool(a.has_component(t))
@@ -95,6 +95,8 @@ def _run(prog):
 
     keep = []
     shared = {}
+    unread = {}        # instance index -> events left: the tag of such an instance is not looked at yet (logged as -98); it is
+    #                    read for the first time after the next change of a class default (or after four events)
     for op in prog:
         k = op[0]
         exc = None
@@ -141,6 +143,8 @@ def _run(prog):
                     else:
                         a = cls[c]("i%d" % len(insts), model)
                 insts.append((c, a))
+                if not ev["explicit"] and len(insts) % 2 == 0:
+                    unread[len(insts) - 1] = 4
             elif k == "attach_inst":
                 _, i, T, s = op
                 ev.update(i=i, T=T, s=s)
@@ -160,8 +164,14 @@ def _run(prog):
                 raise AssertionError(op)
         except Exception as e:  # noqa: BLE001
             exc = e
+        if k == "set_tag":
+            unread.clear()
         ev["out"] = outcome(exc)
         ev["obs"] = obs()
+        for i in list(unread):
+            unread[i] -= 1
+            if unread[i] <= 0:
+                del unread[i]
         events.append(ev)
     return events
 
